@@ -78,7 +78,10 @@ def gen_inputs(c):
          ("long70k", b"y" * 70000 + b"\n"),
          ("long200k", b"x" * 200000 + b"\n"),
          ("long200k-mid", b"a\n" + b"x" * 200000 + b"\nb\n" + b"x" * 200000 + b"\n"),
-         ("mix", b"".join((b"q" * rng.choice((1, 50, 5000, 9000, 70000))) + b" %d\n" % i for i in range(25)))]
+         ("mix", b"".join((b"q" * rng.choice((1, 50, 5000, 9000, 70000))) + b" %d\n" % i for i in range(25))),
+         # line lengths at the case splits of the model/code: stream buffer 8192 (buffered vs direct write),
+         # pipe capacity 65536, both pipes together 131072 (with the newline: -1, 0, +1 around each)
+         ("edges", b"".join(b"e" * (n + d) + b"\n" for n in (8191, 8192, 65535, 65536, 131071, 131072) for d in (-1, 0, 1)))]
     if c.tier == "thorough":
         I.append(("big", b"".join(b"r%d %s\n" % (i % 50000, b"v" * (i % 211)) for i in range(300000))))
         I.append(("long2m", b"m" * 2000000 + b"\n"))
